@@ -390,7 +390,14 @@ func (w *SrvWorld) checkE2ETCP() {
 						if rt.T0-rc.allocAt > 3500*sec {
 							horizon = "beyond-nonce-hour"
 						}
-						w.K.Violate(&Violation{Property: "C14", Class: "tcp-relay-dead", Key: kv("how", rt.How, "horizon", horizon), Detail: detail})
+						key := kv("how", rt.How, "horizon", horizon)
+						for _, at := range w.Net.SilentDials {
+							if at < rt.T0 && at > rc.allocAt {
+								// the server dialled a host that never answers on this allocation's behalf
+								key["cause"] = "after-connect-to-silent-peer"
+							}
+						}
+						w.K.Violate(&Violation{Property: "C14", Class: "tcp-relay-dead", Key: key, Detail: detail})
 					}
 				}
 				continue
